@@ -149,6 +149,7 @@ def grid_cases(tier):
         if bottom is not None and total is not None and total > bottom:
             continue
         cases.append(("slm", chan_spec(clock=4, min_dur=16), (bottom, total), a, nmask))
+    cases += lengthen_cases(tier)
     if tier == "quick":
         return cases
     # thorough: G1-G4 on every combination of clock/min duration as well
@@ -160,6 +161,78 @@ def grid_cases(tier):
                 p.update(clock=clock, min_dur=mind)
                 extra.append((c[0], p) + c[2:])
     return cases + extra
+
+
+# G7 "otherwise only lengthened to the next clock multiple": every parametric waveform WITH its optional parameters (Kaiser beta,
+# interpolation times, interpolator and the interpolator's own options), as amplitude or as detuning, at durations off the clock:
+# what is scheduled is the same waveform - all options included - defined at the lengthened duration.
+INTERP_OPTS = [
+    {}, {"times": [0.0, 0.3, 1.0]},
+    {"interpolator": "interp1d"}, {"interpolator": "interp1d", "times": [0.0, 0.6, 1.0]},
+    {"interpolator": "interp1d", "kind": "quadratic"}, {"interpolator": "interp1d", "kind": "cubic"},
+    {"interpolator": "interp1d", "kind": "previous"}, {"interpolator": "interp1d", "kind": "next"},
+    {"interpolator": "interp1d", "kind": "nearest"}, {"interpolator": "interp1d", "kind": "zero"},
+    {"interpolator": "interp1d", "kind": "slinear", "times": [0.0, 0.2, 0.5, 1.0]},
+    {"interpolator": "PchipInterpolator", "extrapolate": False},
+]
+
+
+def lengthen_cases(tier):
+    specs = [["C", 0, 2.0], ["R", 0, 0.5, 3.0], ["B", 0, 0.3], ["K", 0, 0.3], ["K", 0, 0.3, 2.0], ["K", 0, 0.3, 30.0]]
+    for o in INTERP_OPTS:
+        vals = [0.0, 3.0, 0.5, 2.0] if len(o.get("times", [0] * 4)) == 4 else [0.0, 3.0, 1.0]
+        if o.get("kind") == "cubic":
+            vals, o = [0.0, 3.0, 0.5, 2.0], dict(o, times=[0.0, 0.25, 0.7, 1.0])
+        specs.append(["I", 0, vals, o])
+    durs = [101, 102, 103, 49] if tier == "quick" else [101, 102, 103, 49, 50, 51, 17, 997]
+    clocks = [4] if tier == "quick" else [4, 16, 3]
+    return [("lengthen", chan_spec(clock=c, min_dur=16), sp, role, D) for c in clocks for sp in specs for role in ("amp", "det") for D in durs
+            if D % c]
+
+
+def lengthen_case(case):
+    _, p, sp, role, D = case
+    from pulser import Pulse
+    from pulser.waveforms import ConstantWaveform
+
+    c = p["clock"]
+    Dn = D + c - D % c
+    given, ref = list(sp), list(sp)
+    given[1], ref[1] = D, Dn
+    try:
+        wf, wref = make_wf(given), make_wf(ref)
+    except Exception as e:  # noqa: BLE001
+        return [("@unbuildable", str(e)[:80])]
+    if role == "amp":
+        if float(np.min(np.asarray(wf.samples.as_array(detach=True)))) < 0 or float(np.min(np.asarray(wref.samples.as_array(detach=True)))) < 0:
+            return [("@negative-amplitude-not-a-pulse", "")]
+        pulse = Pulse(wf, ConstantWaveform(D, 0.0), 0.0)
+    else:
+        pulse = Pulse(ConstantWaveform(D, 1.0), wf, 0.0)
+    w = _world(p)
+    seq = w.fresh()
+    seq.declare_channel("g", "rydberg_global")
+    tag = f"{sp[0]}:{role}:" + ",".join(f"{k}={v}" for k, v in sorted((sp[3] if sp[0] == "I" and len(sp) > 3 else {}).items()) if k != "times") + \
+        (":beta" if sp[0] == "K" and len(sp) > 3 else "")
+    try:
+        seq.add(pulse, "g")
+    except Exception as e:  # noqa: BLE001
+        return [(f"C01:valid-pulse-refused:lengthen:{tag}", f"{given} for {D} ns on a {c} ns clock: {type(e).__name__}: {e}"[:300])]
+    s = _sched_pulses(seq, "g")[-1]
+    if s.tf - s.ti != Dn:
+        return [("C01:scheduled-duration", f"duration {D} scheduled as {s.tf - s.ti}, expected {Dn}")]
+    got = np.asarray(s.pulse.amp if role == "amp" else s.pulse.det)
+    exp = np.asarray(wref.samples.as_array(detach=True))
+    other = np.asarray(s.pulse.det if role == "amp" else s.pulse.amp)
+    out = []
+    if not np.allclose(got, exp, rtol=1e-9, atol=1e-9):
+        i = int(np.argmax(np.abs(got - exp)))
+        out.append((f"C01:lengthened-pulse-parameters:{tag}", f"{given}: {D}->{Dn} ns, scheduled samples differ from the same waveform (same options) "
+                    f"defined at {Dn} ns, e.g. sample {i}: {got[i]} vs {exp[i]}"))
+    if not np.allclose(other, 0.0 if role == "amp" else 1.0, rtol=0, atol=1e-12):
+        out.append((f"C01:lengthened-pulse-other-quadrature:{tag}", f"{given}: the constant {'detuning' if role == 'amp' else 'amplitude'} changed"))
+    return out or [("@lengthened-as-defined", "")]
+
 
 
 WEIGHTS = {"w1": {"q0": 1.0, "q1": 1.0, "q2": 1.0}, "wmix": {"q0": 0.25, "q1": 0.75}, "wsingle": {"q1": 1.0},
@@ -184,6 +257,8 @@ def grid_case(case):
     out = []
     with warnings.catch_warnings():
         warnings.simplefilter("ignore")
+        if kind == "lengthen":
+            return lengthen_case(case)
         if kind == "add":
             _, p, (_, ak, a), (_, dk, d), D = case
             try:
